@@ -163,6 +163,22 @@ def clock_oracle(case) -> core.CaseResult:
         res.check(ok, "cf_units", f"cf_units({u}) = {cu!r}, reference {t64(ref_eff)}")
     tk.reset()
     res.check(tk.time == t64(start), "reset", f"reset -> {tk.time}")
+    # The model's warm start puts the clock on the start time by assigning step and time (model.py); the clock
+    # and its CF time value must read start +- n*dt from there on as well.
+    # Done on the used clock and on a fresh one (the model assigns right after construction).
+    u = case["unit"]
+    for which, clock in (("used", tk), ("fresh", TimeKeeper(**kw))):
+        clock.step = 0
+        clock.time = clock.step2time(clock.step)
+        for n in range(0, 4):
+            if n:
+                clock.update()
+            exp = (start + sgn * n * dt - ref_eff) / UNIT_S[u]
+            ok = clock.step == n and clock.time == T(n) and abs(clock.nctime(u) - exp) <= 1e-9 * max(1, abs(exp))
+            if not res.check(ok, "clock_after_assignment",
+                             f"{which} clock set to step 0 by assignment, {n} updates later: step {clock.step}, time "
+                             f"{clock.time}, nctime({u}) {clock.nctime(u)}; expected {n}, {T(n)}, {exp}"):
+                break
     return res
 
 
